@@ -339,22 +339,25 @@ def run(ctx):
             heap = e1.read_heap(case)
             desc = e1.describe(case, heap)
             args = {"fire_count": "-1", "fire_period": "0", "frame_type": case["frame_type"], "stack_type": "stack"}
-            snaps, raised = e1.run_impl(case)
-            ctx.case(dict(limits=desc["limits"], frame_type=desc["frame_type"], files=[f["file"] for f in desc["frames"]],
+            n_act = ctx.rng.choice([1, 1, 1, 2, 3])      # several tracepoints on the line: EVERY snapshot describes the frame
+            snaps, raised = e1.run_impl(case, n_actions=n_act)
+            ctx.case(dict(limits=desc["limits"], frame_type=desc["frame_type"], files=[f["file"] for f in desc["frames"]], tracepoints=n_act,
                           heap=[(h["ty"], h["kind"], len(h["children"])) for h in desc["heap"]]),
                      nontrivial=bool(snaps and snaps[0].var_lookup), bucket="%s friendly=%s" % (case["frame_type"], friendly))
-            if raised is not None or len(snaps) != 1:
-                ctx.fail("no snapshot produced (%r)" % (raised,), desc, tag="no-snapshot")
+            if raised is not None or len(snaps) != n_act:
+                ctx.fail("%d snapshot(s) produced for %d tracepoint(s) on the line (%r)" % (len(snaps), n_act, raised), desc, tag="no-snapshot")
                 continue
-            obs = e1.observe(snaps[0], heap)
-            oracle(ctx, case, heap, snaps[0], obs, desc, args=args)
-            try:
-                lits.append(e1.snap_literal(case, heap, obs, e1.collect_flags(case)))
-                cj.append(desc)
-                flits.append(frames_literal(case, obs))
-                fcj.append(desc)
-            except ValueError as ex:
-                ctx.fail("snapshot cannot be related to the program's objects: %s" % ex, desc, tag="unrelated")
+            for k, snap in enumerate(snaps):
+                dk = dict(desc, tracepoint="%d of %d on the line" % (k + 1, n_act)) if n_act > 1 else desc
+                try:
+                    obs = e1.observe(snap, heap)
+                    oracle(ctx, case, heap, snap, obs, dk, args=args, tp_id="tp-%d" % k)
+                    lits.append(e1.snap_literal(case, heap, obs, e1.collect_flags(case)))
+                    cj.append(dk)
+                    flits.append(frames_literal(case, obs))
+                    fcj.append(dk)
+                except ValueError as ex:
+                    ctx.fail("snapshot cannot be related to the program's objects: %s" % ex, dk, tag="unrelated")
         live_cases(ctx, 120 if ctx.thorough else 24)
     finally:
         e1.restore_clock(saved)
